@@ -53,6 +53,7 @@ structure Obs where   -- what the oracle needs, gathered independently of the mo
   reported : List Key := []                              -- K/D report read by the daemon (or Z of an expired message whose paragraph was appended), completion mark not yet seen
                                                          -- (emptied by a crash; one entry is excused by a failing system call of ITS `markdone`)
   markQueue : List Key := []                             -- K/D reports of the current read whose `markdone` has not been seen, oldest first (volatile)
+  todoThere : List Nat := []                             -- messages whose todo/<m> exists (linked by qmail-queue, not yet removed by qmail-clean)
   clock : Nat := 0                                       -- virtual clock as of the last select
   birth : List (Nat × Nat) := []                         -- message id → clock when info/<m> was last written
 
@@ -212,6 +213,25 @@ def finishCase (d0 : D) : IO D := do
         d ← oracleFail d "C03" s!"recipient {hex r} (record at offset {mpos} of chan {ch}) of message {m} is neither delivered, bounced nor still queued"
   return d
 
+/-- the observer's reading of one line of the queue dump taken after a crash (independent of the monitor):
+the `D` bytes that are on disk now (C04 oracle), and the bounce paragraphs that were in `bounce/<m>` before a MACHINE crash and
+are not in it afterwards (C03 exemption, per record) -/
+def observeCrashDump (o : Obs) (mode : Nat) (path : String) (cur : Bytes) : Obs :=
+  match pathMsg path with
+  | some (dir, m) =>
+    let g := genOf o m
+    match chOf dir with
+    | some ch =>
+      let cn := if ch == .loc then 0 else 1
+      let onDisk : List Key := (dumpRecsPos cur).filterMap (fun (off, dn, _) => if dn then some (m, cn, off, g) else none)
+      { o with marks := onDisk ++ o.marks.filter (fun k => !(k.1 == m && k.2.1 == cn && k.2.2.2 == g)) }
+    | none =>
+      if dir == "bounce" && mode != 0 then
+        let gone := o.inFile.filter (fun k => k.1 == m && k.2.2.2 == g && !isInfix (paraHdr (recipOfKey o k)) cur)
+        { o with lost := gone ++ o.lost, inFile := o.inFile.filter (fun k => !gone.contains k) }
+      else o
+  | none => o
+
 /-- after a crash every file the monitor has must still exist (qsim keeps directory entries across crashes) -/
 def missingAfterCrash (s : St) (dump : List (String × Bytes)) : List String :=
   let has (p : String) : Bool := dump.any (fun (q, _) => q == p)
@@ -255,7 +275,8 @@ def handle (d : D) (line : String) : IO D := do
     let rcpts := (kvAll rest "rcpt").map (fun h => (unhex h).getD [])
     let o := d.c.obs
     let g := genOf o m + 1
-    let o := { o with msgs := (m, sender, rcpts) :: o.msgs.filter (fun x => x.1 != m), gen := (m, g) :: o.gen.filter (fun x => x.1 != m) }
+    let o := { o with msgs := (m, sender, rcpts) :: o.msgs.filter (fun x => x.1 != m), gen := (m, g) :: o.gen.filter (fun x => x.1 != m),
+                      todoThere := m :: o.todoThere.filter (· != m) }
     feed { d with c := { d.c with obs := o } } (.newmsg m sender rcpts) s!"newmsg {m}"
   | "X" :: "cmd" :: rest =>
     let c := if kvOf rest "chan" == "0" then Ch.loc else Ch.rem
@@ -275,6 +296,10 @@ def handle (d : D) (line : String) : IO D := do
     else if o.reported.contains (m, cn, mpos, g) then
       -- reported K or D in this run or before a clean stop; no crash and no failing call of its markdone since the report was read
       dd ← oracleFail dd "C04" s!"delivery started for message {m} chan {cn} mpos {mpos} (recipient {hex recip}) although it was already reported K/D (no crash, no failing call of its markdone in between; its completion mark was never written)"
+    -- a delivery starts only for a completely preprocessed message: while todo/<m> exists the message will be preprocessed
+    -- (again) and the marks in local|remote/<m> wiped
+    if o.todoThere.contains m then
+      dd ← oracleFail dd "C04" s!"delivery started for message {m} chan {cn} mpos {mpos} while todo/{m} still exists"
     -- at most one attempt per recipient in flight
     if o.active.any (fun (_, _, a2) => keyOfAtt o a2 == some (m, cn, mpos, g)) then
       dd ← oracleFail dd "C04" s!"second delivery started for message {m} chan {cn} mpos {mpos} while an attempt for the same recipient is in flight"
@@ -321,12 +346,21 @@ def handle (d : D) (line : String) : IO D := do
   | "X" :: "clean-restart" :: _ =>
     -- the daemon exited 0 after TERM and is started again on the same queue: volatile state is gone, every file stays
     feed2 d .cleanRestart "cleanRestart"
+  | "X" :: "end" :: rest =>
+    -- C04 oracle: after TERM qmail-send waits for every outstanding report before it exits 0; a delivery in flight at a clean
+    -- exit is a lost report: no mark is written and the recipient is attempted again by the next qmail-send
+    if kvOf rest "exit" == "0" && kvOf rest "crashed" == "0" && !d.c.obs.active.isEmpty then
+      oracleFail d "C04" s!"qmail-send exited 0 while {d.c.obs.active.length} deliveries were in flight (attempts {d.c.obs.active.map (·.2.2)}): their reports are lost, the recipients will be attempted again"
+    else return d
   | "X" :: _ => return d
   | "D" :: tag :: path :: rest =>
     -- queue dump lines; the last dump of the case is what the oracle judges; after a crash they resync the monitor
     let cur := (unhex (kvOf rest "cur")).getD []
     let c := if tag != d.c.dumpTag then { d.c with dumpTag := tag, finalDump := [] } else d.c
     let c := { c with finalDump := (path, cur) :: c.finalDump }
+    let c := match c.pendingCrashMode with
+      | some mode => { c with obs := observeCrashDump c.obs mode path cur }
+      | none => c
     let mut dd := { d with c := c }
     match c.pendingCrashMode, c.st with
     | some mode, some s2 =>
@@ -337,12 +371,6 @@ def handle (d : D) (line : String) : IO D := do
         match chOf dir with
         | some ch =>
           let marks := (dumpRecs cur).map (·.1)
-          -- the observer re-reads the D bytes that are on disk after the crash (C04 oracle)
-          let cn := if ch == .loc then 0 else 1
-          let g := genOf dd.c.obs m
-          let onDisk : List Key := (dumpRecsPos cur).filterMap (fun (off, dn, _) => if dn then some (m, cn, off, g) else none)
-          dd := { dd with c := { dd.c with obs := { dd.c.obs with
-                    marks := onDisk ++ dd.c.obs.marks.filter (fun k => !(k.1 == m && k.2.1 == cn && k.2.2.2 == g)) } } }
           match ms.chan ch with
           | some rs =>
             if ms.todo.isSome then
@@ -353,12 +381,6 @@ def handle (d : D) (line : String) : IO D := do
           | none => dd ← reject dd s!"after the crash {path} exists but not in the model"
         | none =>
           if dir == "bounce" then
-            -- observer (C03 exemption): a paragraph that was in the file before a MACHINE crash and is not in it now is lost
-            let o := dd.c.obs
-            let g := genOf o m
-            let gone := o.inFile.filter (fun k => k.1 == m && k.2.2.2 == g && !isInfix (paraHdr (recipOfKey o k)) cur)
-            if mode != 0 && !gone.isEmpty then
-              dd := { dd with c := { dd.c with obs := { o with lost := gone ++ o.lost, inFile := o.inFile.filter (fun k => !gone.contains k) } } }
             if ms.bounce != some cur then
               -- a process crash loses nothing: the file may only have grown, by an `addbounce` that was cut short
               if mode == 0 && !((ms.bounce.getD []).isPrefixOf cur && s.cut.contains m) then
@@ -569,7 +591,9 @@ def handle (d : D) (line : String) : IO D := do
       if !attempted then return d else
       match pathMsg path with
       | some ("intd", m) => feed d (.cUnlinkIntd m) s!"cUnlinkIntd {m}"
-      | some ("todo", m) => if r == "0" then feed d (.cUnlinkTodo m) s!"cUnlinkTodo {m}" else return d
+      | some ("todo", m) =>
+        if r == "0" then feed { d with c := { d.c with obs := { d.c.obs with todoThere := d.c.obs.todoThere.filter (· != m) } } } (.cUnlinkTodo m) s!"cUnlinkTodo {m}"
+        else return d
       | some ("mess", m) => if r == "0" then feed d (.cUnlinkMess m) s!"cUnlinkMess {m}" else return d
       | _ => reject d s!"qmail-clean unlinked {path}"
     | _ => return d
